@@ -1,4 +1,5 @@
 import TantivyModel.Model.Wand
+import TantivyModel.Proofs.Wand
 /-!
 Soundness of the generic pruning machine: a run whose `seek`s only pass over dead documents, whose
 `eval`s score the smallest current document and which stops only when every remaining document is
@@ -435,5 +436,61 @@ theorem runMachine_eq_exhaustive {cb : σ → Nat → Nat → σ × Nat} {R : σ
       apply exhRange_congr hcb _ _ _ _ _ _ hR'.1
       intro e he _ _
       exact ht.map_ge ps (d + 1) e he
+
+end TantivyModel.Wand
+
+/-! ### the skip rules speak about the machine's state
+
+`find_pivot_doc` and the block-max test look at the scorers *sorted by current document*; the
+machine keeps them at fixed positions. Totals do not depend on the order. -/
+namespace TantivyModel.Wand
+open List
+
+theorem totalScore_perm {ts₁ ts₂ : List TermList} (h : ts₁ ~ ts₂) (d : Nat) :
+    totalScore ts₁ d = totalScore ts₂ d := by
+  unfold totalScore
+  induction h with
+  | nil => rfl
+  | cons x _ ih => simp [ih]
+  | swap x y l => simp; omega
+  | trans _ _ ih₁ ih₂ => exact ih₁.trans ih₂
+
+/-- the scorers as the pivot rule sees them: postings with the term's global bound -/
+def views : List Postings → List Nat → List TermList
+  | p :: ps, m :: ms => ⟨p, m⟩ :: views ps ms
+  | _, _ => []
+
+theorem totalScore_views (ps : List Postings) (ms : List Nat) (h : ps.length = ms.length) (d : Nat) :
+    totalScore (views ps ms) d = unionTotal ps d := by
+  induction ps generalizing ms with
+  | nil => cases ms <;> simp [views, totalScore, unionTotal]
+  | cons p ps ih =>
+    cases ms with
+    | nil => simp at h
+    | cons m ms =>
+      have := ih ms (by simpa using h)
+      simp only [views, totalScore, unionTotal, map_cons, sum_cons] at this ⊢
+      rw [this]
+      rfl
+
+/-- what `find_pivot_doc` establishes about the machine state `ps`: every document before the
+pivot — every document at all if there is no pivot — is dead. `ts` is the sorted arrangement of
+the scorers the code works on. Any `seek` of any scorer to (at most) the pivot is therefore a
+valid move of the machine, and `none` licenses stopping. -/
+theorem pivot_dead (θ : Nat) (ps : List Postings) (ms : List Nat) (hlen : ps.length = ms.length)
+    (ts : List TermList) (hperm : ts ~ views ps ms) (hs : SortedByCur ts)
+    (hub : ∀ t, t ∈ ts → ∀ p, p ∈ t.postings → p.2 ≤ t.maxScore) :
+    (∀ piv, findPivot θ ts 0 = some piv → ∀ d, d < piv → unionTotal ps d ≤ θ) ∧
+    (findPivot θ ts 0 = none → ∀ d, unionTotal ps d ≤ θ) := by
+  have h := findPivot_sound θ ts 0 (Nat.zero_le _) hs hub
+  constructor
+  · intro piv hp d hd
+    have := h.1 piv hp d hd
+    rw [totalScore_perm hperm d, totalScore_views ps ms hlen d] at this
+    omega
+  · intro hn d
+    have := h.2 hn d
+    rw [totalScore_perm hperm d, totalScore_views ps ms hlen d] at this
+    omega
 
 end TantivyModel.Wand
